@@ -486,6 +486,14 @@ impl Tcp {
         (rx, bidi)
     }
 
+    /// Attach the flow control actually used by the stream at `pair` (the
+    /// accepting side shares the connecting side's, inverted).
+    pub(crate) fn set_flow_control(&mut self, pair: SocketPair, flow_control: BidiFlowControl) {
+        if let Some(sock) = self.sockets.get_mut(&pair) {
+            sock.flow_control = flow_control;
+        }
+    }
+
     pub(crate) fn flow_control(&self, pair: SocketPair) -> BidiFlowControl {
         self.sockets
             .get(&pair)
@@ -539,10 +547,10 @@ impl Tcp {
                 None => return Err(Protocol::Tcp(Segment::Rst)),
             },
             Segment::Rst => {
-                if self.sockets.get(&SocketPair::new(dst, src)).is_some() {
-                    self.sockets
-                        .swap_remove(&SocketPair::new(dst, src))
-                        .unwrap();
+                if let Some(sock) = self.sockets.swap_remove(&SocketPair::new(dst, src)) {
+                    // A writer parked on flow control would otherwise wait
+                    // forever for credits the (gone) peer will never release.
+                    sock.flow_control.reset();
                 }
             }
         };
